@@ -21,7 +21,7 @@ fuzz_target!(|data: &[u8]| {
     let n_then = u.int_in_range(0..=3usize).unwrap_or(0);
     let then: Vec<OpKind> = (0..n_then).map(|_| common::pick(&mut u, &OPS)).collect();
     let sign_type = common::pick(&mut u, &[5u8, 4, 3, 10, 2, 8]);
-    let pages = u.int_in_range(0..=2u8).unwrap_or(0);
+    let pages = u.int_in_range(0..=3u8).unwrap_or(0);
     let mut script = vec![];
     while !u.is_empty() && script.len() < 160 {
         script.push(match u.int_in_range(0..=15u8).unwrap_or(0) {
@@ -30,12 +30,26 @@ fuzz_target!(|data: &[u8]| {
             11 => Choice::Symbol(Reply::Msg(M::Report(common::pick(&mut u, &foreign), u.int_in_range(0..=12u8).unwrap_or(0)))),
             12 => Choice::Symbol(Reply::Msg(M::Ack(addr, u.int_in_range(0..=5u8).unwrap_or(0)))),
             13 => Choice::Symbol(Reply::Msg(M::Ack(common::pick(&mut u, &foreign), u.int_in_range(0..=5u8).unwrap_or(0)))),
-            14 => if u.arbitrary().unwrap_or(false) { Choice::Symbol(Reply::Echo) } else { Choice::Symbol(Reply::None) },
+            14 => match u.int_in_range(0..=3u8).unwrap_or(0) {
+                0 => Choice::Symbol(Reply::Echo),
+                1 => Choice::Symbol(Reply::None),
+                // a controller-type message carrying another address
+                _ => {
+                    let a = common::pick(&mut u, &foreign);
+                    Choice::Symbol(Reply::Msg(match u.int_in_range(0..=4u8).unwrap_or(0) {
+                        0 => M::Hello(a),
+                        1 => M::Query(a),
+                        2 => M::Req(a, u.int_in_range(0..=5u8).unwrap_or(0)),
+                        3 => M::PixelsComplete(a),
+                        _ => M::Goodbye(a),
+                    }))
+                }
+            },
             _ => Choice::Symbol(Reply::BusError),
         });
     }
-    let bus_error_kind = u.int_in_range(0..=4u8).unwrap_or(0);
-    let case = SeqCase { base: ConvCase { op, addr, sign_type, pages, page_seed: 1, script, bus_error_kind }, then };
+    let bus_error_kind = u.int_in_range(0..=9u8).unwrap_or(0);
+    let case = SeqCase { base: ConvCase { op, addr, sign_type, pages, page_seed: u.int_in_range(0..=7u8).unwrap_or(1) as u64, script, bus_error_kind }, then };
     let mut st = Stats::new();
     if let Err(m) = check_sequence(&case, false, &mut st) {
         common::violation("C10", "sequences", serde_json::to_value(&case).unwrap(), m);
